@@ -41,6 +41,9 @@ pub enum Step {
     Xwake { us: u64 },
     /// panic
     Panic,
+    /// report "parked" to the dispatching thread, then block the worker THREAD until the gate of
+    /// the run is opened (Op::Open): nothing else can start on this worker meanwhile
+    Gate,
 }
 
 #[derive(Serialize, Deserialize, Clone, Debug)]
@@ -54,10 +57,22 @@ pub struct TaskSpec {
 #[derive(Serialize, Deserialize, Clone, Debug)]
 #[serde(tag = "op", rename_all = "lowercase")]
 pub enum Op {
-    Dispatch { id: u32 },
+    /// `forget`: fire and forget - the receiver is dropped as soon as the call has returned Ok
+    Dispatch {
+        id: u32,
+        #[serde(default)]
+        forget: bool,
+    },
     /// await the receiver of an earlier dispatch of this thread
     Wait { id: u32 },
+    /// drop the receiver of an earlier dispatch of this thread (before, while or after it runs)
+    Drop { id: u32 },
     Pause { us: u64 },
+    /// dispatch the gate tasks `ids` one at a time, each time waiting until its closure reports
+    /// that it has parked a (further) worker: afterwards every worker thread is blocked
+    Park { ids: Vec<u32> },
+    /// open the gate
+    Open,
 }
 
 #[derive(Serialize, Deserialize, Clone, Debug)]
@@ -219,6 +234,61 @@ pub fn generate(seed: u64, iour_ok: bool) -> Program {
             body: gen_body(&mut r, kind, allow_blocking, sender_rt, allow_bpanic),
         });
     }
+    // Fire-and-forget programs with the workers parked on a gate: the receivers are dropped while
+    // no worker can possibly have reached the closures, so the drop certainly precedes the start.
+    if fault == "none" && r.pct(22) {
+        let npay = r.range(1, (MAX_TASKS - nw as u64).min(3));
+        tasks.truncate(npay as usize);
+        let mut ops = Vec::new();
+        let gate_ids: Vec<u32> = (0..nw as u32).map(|k| npay as u32 + 1 + k).collect();
+        for g in &gate_ids {
+            tasks.push(TaskSpec {
+                id: *g,
+                kind: "async".to_string(),
+                body: vec![Step::Gate],
+            });
+        }
+        ops.push(Op::Park {
+            ids: gate_ids.clone(),
+        });
+        let mut kept = Vec::new();
+        for t in tasks.iter().take(npay as usize) {
+            let forget = r.pct(75);
+            ops.push(Op::Dispatch { id: t.id, forget });
+            if !forget {
+                if r.pct(40) {
+                    ops.push(Op::Drop { id: t.id });
+                } else {
+                    kept.push(t.id);
+                }
+            }
+        }
+        if r.pct(50) {
+            ops.push(Op::Pause {
+                us: r.range(0, 1500),
+            });
+        }
+        ops.push(Op::Open);
+        if r.pct(50) {
+            for id in kept.iter().chain(gate_ids.iter()) {
+                ops.push(Op::Wait { id: *id });
+            }
+        }
+        return Program {
+            seed,
+            nw,
+            concurrent,
+            driver: driver.to_string(),
+            fault: fault.to_string(),
+            pool_limit,
+            main_rt,
+            sender_rt,
+            join_delay_us: if r.pct(60) { 0 } else { r.range(0, 3000) },
+            watchdog_ms: 30_000,
+            threads: vec![ops],
+            tasks,
+        };
+    }
     // distribute the tasks over the dispatching threads
     let mut threads: Vec<Vec<Op>> = vec![Vec::new(); ns];
     let mut mine: Vec<Vec<u32>> = vec![Vec::new(); ns];
@@ -230,8 +300,24 @@ pub fn generate(seed: u64, iour_ok: bool) -> Program {
                 us: r.range(0, 1500),
             });
         }
-        threads[s].push(Op::Dispatch { id: t.id });
+        // fire and forget without a gate: the drop races with the start
+        let forget = r.pct(18);
+        threads[s].push(Op::Dispatch { id: t.id, forget });
+        if forget {
+            continue;
+        }
         mine[s].push(t.id);
+        if r.pct(8) {
+            // drop it a little later: before, while or after the closure runs
+            let id = mine[s].pop().unwrap();
+            if r.pct(50) {
+                threads[s].push(Op::Pause {
+                    us: r.range(0, 3000),
+                });
+            }
+            threads[s].push(Op::Drop { id });
+            continue;
+        }
         // with faulty workers a receiver may legitimately stay pending until join is called
         if fault == "none" && r.pct(25) {
             let k = r.range(0, mine[s].len() as u64 - 1) as usize;
@@ -280,8 +366,14 @@ pub fn scenario_poolpanic() -> Program {
         join_delay_us: 0,
         watchdog_ms: 8_000,
         threads: vec![
-            vec![Op::Dispatch { id: 1 }, Op::Wait { id: 1 }],
-            vec![Op::Dispatch { id: 2 }, Op::Wait { id: 2 }],
+            vec![Op::Dispatch {
+                id: 1,
+                forget: false,
+            }, Op::Wait { id: 1 }],
+            vec![Op::Dispatch {
+                id: 2,
+                forget: false,
+            }, Op::Wait { id: 2 }],
         ],
         tasks: vec![
             TaskSpec {
@@ -313,7 +405,10 @@ pub fn scenario_poolrace() -> Program {
         sender_rt: false,
         join_delay_us: 1500,
         watchdog_ms: 8_000,
-        threads: vec![vec![Op::Dispatch { id: 1 }]],
+        threads: vec![vec![Op::Dispatch {
+                id: 1,
+                forget: false,
+            }]],
         tasks: vec![TaskSpec {
             id: 1,
             kind: "async".into(),
@@ -336,11 +431,61 @@ pub fn scenario_pool1(concurrent: bool) -> Program {
         sender_rt: false,
         join_delay_us: 0,
         watchdog_ms: 8_000,
-        threads: vec![vec![Op::Dispatch { id: 1 }]],
+        threads: vec![vec![Op::Dispatch {
+                id: 1,
+                forget: false,
+            }]],
         tasks: vec![TaskSpec {
             id: 1,
             kind: "async".into(),
             body: vec![Step::Sleep { ms: 150 }, Step::Blocking],
         }],
+    }
+}
+
+/// Fire-and-forget on parked workers, deterministic: every worker is blocked on the gate while
+/// `npay` closures are dispatched and their receivers dropped; then the gate opens and join is
+/// called at once. Every one of them has to be started (sequential mode: finished) all the same.
+pub fn scenario_forget(nw: usize, concurrent: bool, blocking: bool) -> Program {
+    let npay = 3u32;
+    let gate_ids: Vec<u32> = (0..nw as u32).map(|k| npay + 1 + k).collect();
+    let mut tasks = Vec::new();
+    let mut ops = vec![Op::Park {
+        ids: gate_ids.clone(),
+    }];
+    for id in 1..=npay {
+        let b = blocking && id == npay;
+        tasks.push(TaskSpec {
+            id,
+            kind: if b { "blocking" } else { "async" }.into(),
+            body: if b {
+                vec![Step::Sleep { ms: 1 }]
+            } else {
+                vec![Step::Yield { n: 1 }]
+            },
+        });
+        ops.push(Op::Dispatch { id, forget: true });
+    }
+    for g in &gate_ids {
+        tasks.push(TaskSpec {
+            id: *g,
+            kind: "async".into(),
+            body: vec![Step::Gate],
+        });
+    }
+    ops.push(Op::Open);
+    Program {
+        seed: 0,
+        nw,
+        concurrent,
+        driver: "poll".into(),
+        fault: "none".into(),
+        pool_limit: 0,
+        main_rt: false,
+        sender_rt: false,
+        join_delay_us: 0,
+        watchdog_ms: 30_000,
+        threads: vec![ops],
+        tasks,
     }
 }
